@@ -1,6 +1,7 @@
 import Hgxv.Model.Wire
 import Hgxv.Model.C05
 import Hgxv.Model.C05GetEdges
+import Hgxv.Model.C05Batch
 /-! Line protocol for C05.  Two families of slots: `u` (Hypergraph) and `d` (DirectedHypergraph).
 Keys: `u` = `1,2,3` (`_` empty), `d` = `1,2>3`; raw keys are canonicalised (sorted) on entry.
 Metadata: `a:v,a:v` or `-`.  Optional numbers / lists: `n` = None.
@@ -10,6 +11,9 @@ Metadata: `a:v,a:v` or `-`.  Optional numbers / lists: `n` = None.
   K setim s key n md | K attri s key n a v   (key as given: `u` stores under the unsorted tuple)
   K addempty s name md | K sethm s md | K attrh s a v
   K addnodes s nodes tbl|n   (tbl = `node=md;node=md`, `~` empty) | K rmnode s n keep | K clear s      -> ok | rej
+  K rmnodex s n keep   (remove_node as the code runs it, also for a node on both sides of a directed hyperedge: the state
+                        left by a call that raises half-way stays) | K rmedges s key;key;...|~ | K rmnodes s nodes keep
+                                                                                -> ok | rej   (`Model/C05Batch.lean`)
   K copy i j | K induced i j nodes | K lcc i j comp | K byorders i j orders|n sizes|n keep
   K edgessub i j order|n size|n upto keep                                        -> ok | rej
   K getedges i j order|n size|n upto sub keep md   (get_edges with all its flags)
@@ -64,7 +68,7 @@ def tbl? (s : String) : Option (Option (List (Node × Meta))) :=
 def bool? (s : String) : Option Bool := if s = "1" then some true else if s = "0" then some false else none
 
 section
-variable {κ : Type} [DecidableEq κ] [Keyed κ] [WireKey κ]
+variable {κ : Type} [DecidableEq κ] [Keyed κ] [WireKey κ] [Batch κ]
 
 def digest (c : Content κ) : String :=
   showBool c.weighted ++ "|" ++
@@ -84,6 +88,15 @@ def mutateOp (sl : Slots κ) (s : String) (op : Op κ) : Slots κ × String :=
     match AL.get? sl i with
     | none => (sl, "bad-slot")
     | some c => (mutateSlot sl i op, if (apply? c op).isSome then "ok" else "rej")
+
+/-- a call that may raise half-way (`C05.applyX`): the state it leaves is stored whatever the verdict -/
+def mutateX (sl : Slots κ) (s : String) (op : OpX κ) : Slots κ × String :=
+  match s.toNat? with
+  | none => (sl, "bad-op")
+  | some i =>
+    match AL.get? sl i with
+    | none => (sl, "bad-slot")
+    | some c => let r := applyX c op; (AL.set sl i r.1, if r.2 then "ok" else "rej")
 
 /-- store an extraction of slot `i` into slot `j` -/
 def extract (sl : Slots κ) (i j : String) (f : Content κ → Option (Content κ)) : Slots κ × String :=
@@ -168,6 +181,17 @@ def stepK (sl : Slots κ) : List String → Slots κ × String
       let keep ← bool? keep
       some (mutateOp sl s (.removeNode n keep))
   | ["clear", s] => mutateOp sl s .clear
+  | ["rmnodex", s, n, keep] => orBad sl do
+      let n ← n.toNat?
+      let keep ← bool? keep
+      some (mutateX sl s (.removeNodeRaw n keep))
+  | ["rmedges", s, ks] => orBad sl do
+      let ks ← listOf? ";" "~" (fun t => (WireKey.parse t : Option κ)) ks
+      some (mutateX sl s (.removeEdges ks))
+  | ["rmnodes", s, ns, keep] => orBad sl do
+      let ns ← nats? ns
+      let keep ← bool? keep
+      some (mutateX sl s (.removeNodes ns keep))
   | ["copy", i, j] => extract sl i j (fun c => some (copy c))
   | ["induced", i, j, ns] => orBad sl do
       let ns ← nats? ns
